@@ -79,6 +79,10 @@ CHECKS = {
    "stateless depth-first exploration of every schedule of 2-3 goroutine harnesses up to a preemption bound under a controlled scheduler on the real code (sync shim + injected statement points), plus a free-running race-detector pass over the same bodies",
    "Every unordered pair of 9 exported-API calls (and three 3-goroutine scenarios) on ONE shared Patch and shared input slices, with cold and warm type caches, is run under a cooperative scheduler that owns every sync.Pool/Map/WaitGroup operation of the codec (configuration A) and additionally every statement boundary of the functions touching them (configuration B); all schedules within the preemption bound are enumerated (Pool.Get answers share the budget), each complete schedule judged: every call returns its solo outcome, inputs and Patch unchanged, no panic, no deadlock. Replays are deterministic (map iteration fixed at build time; the default schedule is run twice). The 'no data race' clause is decided by the Go race detector on the same bodies running freely over a mutex-guarded global pool (so goroutines really exchange pooled objects).",
    T+"The race half is detection on executed accesses, not enumeration; it is reported separately in the evidence (race_pass). Standard-library internals are trusted. The legacy package is covered by the race half only."),
+ "C17": ("codecx", "DESIGN.md §4 E4, §5 C17",
+   "bounded-exhaustive enumeration of JSON texts x spellings, of run-time generated Go types x values x texts, and of Decoder scripts x every split of the stream into reads, each compared with an independent reader or with encoding/json",
+   "(1) Every value of the enumerated family in several spellings plus escape/number specials goes through all four Unmarshal entry points and back through Marshal/MarshalEscaped - on a brand-new codec state (pools emptied before each entry point) and on a recycled one - and must read back as the same value (literals, code points), report keys in document order, and Compact/Indent/HTMLEscape must equal independent implementations. (2) ~600 Go types built at run time (scalars, []byte, any, pointers, slices, arrays, maps, structs with every tag form, name collisions, embedding) x value domains: Marshal / MarshalIndent / MarshalEscaped / Encoder in 6 settings equal encoding/json byte for byte, and every text of a matching+mismatching set decodes into zero and pre-filled targets to encoding/json's value and error-ness. (3) All Decoder scripts up to length 3/4 over 8 streams under every split into <= 3 reads agree step by step with encoding/json.",
+   T+"Relative to the installed standard library; U+0008/U+000C spelling and the Number type are normalised as the property says; ASCII field names."),
  "C20": ("cmdx", "DESIGN.md §4 E7, §5 C20",
    "exhaustive enumeration of -p argument lists (order, repetition) over a patch-file menu x stdin documents, each run as a real process of the binary built from the working tree; byte-exact comparison with the library fold and value comparison with the reference fold",
    "Every list of 0..2 (thorough 3) patch files over a 12-file menu (valid non-commuting patches, one applicable only after another, failing test, malformed, unknown op, missing file, directory, empty, empty patch, root-replacing) x 6 stdin documents is executed with both command binaries (v5 cmd, legacy cmd). Success: stdout byte-identical to folding the library's Apply over the files in command-line order, exit 0, value equal to the reference fold. Any unreadable/undecodable/inapplicable patch: empty stdout, non-empty stderr, non-zero exit.",
@@ -126,6 +130,7 @@ def main():
               ("scanx", "harness/scanx_hook.go", "reachability over the product of the real scanner automaton and a reference pushdown recogniser"),
               ("histx", "harness/histx.go", "explicit-state BFS over API call histories x pool answers x map orders, state = generic dump of all package-level library state (sync shim)"),
               ("schedx", "harness/schedx.go", "controlled scheduler + DFS with iterative preemption bounding over the real code (sync shim), and a free-running race-detector pass"),
+              ("codecx", "harness/codecx.go", "bounded-exhaustive differential enumeration of the forked codec against an independent reader and encoding/json (texts, run-time generated types, streams x read splits)"),
               ("cmdx", "harness/cmdx.go", "black-box exhaustive enumeration of command lines x stdin documents on the built binaries"),
               ("decodex", "harness/decodex.go", "all single/pair member mutations of valid operations vs. a reference acceptance predicate"),
             ]
